@@ -7,16 +7,16 @@ WHAT = 'ThreadPool runs every submitted task exactly once'
 def run(ctx):
     thorough = ctx.tier == 'thorough'
     ctx.check_model(pc.SPEC, 'MCPool.tla', 'MC_q2_basic.cfg', WHAT, label='2 workers: fq racing the workers and the destructor',
-                    workers=8, vacuity_exempt=VAC, timeout=1500)
+                    workers=8, required=('TpAddWork', 'TpEnqueue', 'TpWkDequeue', 'TpStop', 'TpRzJoined', 'FutexWait', 'FutexWake'), timeout=1500)
     if thorough:
         ctx.check_model(pc.SPEC, 'MCPool.tla', 'MC_q_basic.cfg', WHAT, label='2 workers: fq, sched, destructor', workers=12,
-                        vacuity_exempt=VAC, timeout=3000, heap='16g')
-        ctx.check_model(pc.SPEC, 'MCPool.tla', 'MC_idle_bulk.cfg', WHAT, label='3 workers: bulk from idle', workers=8, vacuity_exempt=VAC)
+                        required=('TpAddWork', 'TpEnqueue', 'TpWkDequeue', 'TpStop', 'TpRzJoined', 'FutexWait', 'FutexWake'), timeout=3000, heap='16g')
+        ctx.check_model(pc.SPEC, 'MCPool.tla', 'MC_idle_bulk.cfg', WHAT, label='3 workers: bulk from idle', workers=8, required=('TpAddWork', 'TpEnqueue', 'TpWkDequeue', 'TpStop', 'TpRzJoined', 'FutexWait', 'FutexWake'))
     exe = pc.build(ctx, 2)
     rng = random.Random(ctx.seed)
     progs = ['main:new2,fq1,sched2,bulk3.2,del', 'main:new0,fq1,sched2,bulk3.2,del',
              'main:new2,up,fq1,sched2,sync,del;p2:up,fq5,bulk6.2', 'main:new1,wake0,fq1,bulk2.3,del']
-    progs += ['main:new2,up,placed1,pfq2,sched3,sync,del;p2:up,pfq5,placed6,fq7']
+    progs += ['main:new2,up,placed1,pfq2,sched3,sync,del;p2:up,pfq5,placed6,fq7', 'main:new2,rbulk1.2,pfq3,placed4,rbulk5.2,pfq7,del']
     progs += pc.random_programs(rng, 10 if thorough else 2, ['fq', 'sched', 'bulk', 'placed', 'pfq'])
     n = 30 if thorough else 6
     tr = None
